@@ -11,8 +11,10 @@ import numpy as np
 import vlib
 from harness import c03_common as cc
 
-GEN = ['CatRows', 'CatRowsFlux']
-EXTRA_TARGETS = ['Refuted/C03_istart.vo', 'Refuted/C03_errors.vo']
+from harness import c03x
+
+GEN = ['CatRows', 'CatRowsFlux'] + c03x.GEN_EXTRA
+EXTRA_TARGETS = ['Refuted/C03_istart.vo', 'Refuted/C03_errors.vo'] + c03x.EXTRA_TARGETS
 LEVEL = 'proof'
 TRUSTED = [
     'Coq 8.16.1 kernel + vm_compute; every C03 theorem except the two int_flux ones is axiom-free; C03_intflux_* use the '
@@ -43,6 +45,8 @@ ASSUMPTIONS = [
     'non-zero position stderr are not mixed; peak, a, b are never 0 (division by zero is outside the table)',
     'float comparisons in the correspondence are exact only on integer / dyadic inputs (pa_limit, fix_shape, dec2dms at n/64)',
 ]
+TRUSTED = TRUSTED + c03x.TRUSTED_EXTRA
+ASSUMPTIONS = ASSUMPTIONS + c03x.ASSUMPTIONS_EXTRA
 KNOWN = {
     # key -> substring that must appear in a `finding: property=C03 ...` line of known_findings.txt to record the finding
     'widefield': 'int_flux wide-field',
@@ -673,6 +677,7 @@ def run(ctx, model_ok=True):
     # ---- command line tie: the argument glue of AegeanTools/CLI vs the library call that --help promises
     from harness import cli_cases
     cli_cases.hook(ctx, cli_cases.aegean_table_cli, 'aegean')
+    c03x.run_extra(ctx, model_ok)
 
 
 def widefield(ctx, run_):
@@ -898,6 +903,9 @@ def unrecorded(ctx, rows, fails, mode):
 
 def search(ctx):
     """the property's oracle directly on the implementation over a seeded stream of images"""
+    extra = c03x.search_extra(ctx)
+    if extra:
+        return extra
     rng = ctx.rng
     t0 = time.time()
     k = 0
@@ -957,6 +965,8 @@ def replay(ctx, obj):
     if fi.get('kind') == 'cli':
         from harness import cli_cases
         return cli_cases.replay_cli(ctx, fi)
+    if fi.get('kind') == 'order':
+        return c03x.replay_extra(ctx, fi)
     kind = fi.get('kind')
     if kind in ('catalogue', 'raise', 'islands', 'repro'):
         job = fi['job']
